@@ -1316,11 +1316,12 @@ func faultBody(r *explore.Run, rep *report.R, sc string, bases []faultBase) {
 func TestCheck(t *testing.T) {
 	rep := report.New("C09", "exploration")
 	rep.Meta(
-		"Four scenario families, each case built from free choices and run on the real XR reconciler (production options from the XRD reconciler: XRD connectionSecretKeys -> APIFilteredSecretPublisher) and the real claim reconciler (client-side and server-side-apply syncers, APIConnectionPropagator) over simkube, in virtual time (one minute between reconciles). "+
+		"Five scenario families, each case built from free choices and run on the real XR reconciler (production options from the XRD reconciler: XRD connectionSecretKeys -> APIFilteredSecretPublisher) and the real claim reconciler (client-side and server-side-apply syncers, APIConnectionPropagator) over simkube, in virtual time (one minute between reconciles). "+
 			"(1) publish/pipeline: produced details = every subset of {a,b,c} returned by a scripted function x XRD filter {unset, [a], [a,z], []} x XR asks {no, spec.writeConnectionSecretToRef, defaulted from the composition's writeConnectionSecretsToNamespace} x secret already at the destination {absent, uncontrolled connection type, uncontrolled Opaque, controlled by the XR, controlled by another UID} x its data {none, {a}, {b}}; a second XR of the same kind (values derived from the XR name) is reconciled by the same reconciler first. "+
 			"(2) publish/pt: per XR key a,b (and c on a second composed resource in the thorough tier) one template connectionDetails config of {none, FromConnectionSecretKey present/missing, FromFieldPath string/missing/number, FromValue} x one extra config {none, unnamed secret key present/missing, unnamed value, unnamed field path, inferred type value, inferred precedence} x filter {unset, [a], [a,z]} x (thorough tier: asks x pre-existing secret {absent, controlled by the XR with {a}, controlled by another UID} x composed resources' secrets present from the start or appearing after a first quiescence; quick tier: XR asks, no pre-existing secret, secrets appear after a first quiescence); the reference extraction is written from the ConnectionDetail API documentation. "+
 			"(3) claim: after the XR is Ready, source situation {owned, deleted, controller stripped, controller replaced, XR spec repointed at a victim's / an Opaque / an uncontrolled connection secret, XR does not ask, XR never Ready} x XR reconciles again or not x claim asks or not x destination {absent, uncontrolled connection, uncontrolled Opaque, controlled by the claim, controlled by another UID} x syncer x produced x filter; oracle is a function of the stored state before the claim reconciles; evaluated after the first claim quiescence and again after joint XR+claim quiescence. "+
 			"(4) fault: one API fault (error-before, conflict, error-after, crash-before, crash-after; reads too) at every API call of three XR reconciles and two claim reconciles, then fault-free to joint quiescence; final secrets compared with the reference. "+
+			"(5) publish/observed-composed: a function that copies the connection details of every observed composed resource to the XR (as function-patch-and-transform does); spec.resourceRefs names the XR's own composed resource (existing or not) and a composed resource with its own connection secret that {another XR, a non-XR owner, nobody: absent} controls x the composed kind served by the cache or missing from it (uncached fallback) x filter; the foreign resource must not reach the function, its details must not reach the XR's secret, and the XR's secret equals its own composed resource's allowed details. "+
 			"Every case ends with steady-state reconciles that must not write either secret (write log) nor move status.connectionDetails.lastPublishedTime. A victim secret controlled by another UID is present in every world and must stay byte-identical and unleaked. "+
 			"Non-trivial: at least one produced key and an XR that asks for a secret (fault family: at least one fault taken); distinct by parameter tuple.",
 		[]string{
@@ -1351,6 +1352,7 @@ func TestCheck(t *testing.T) {
 		{Name: "publish/pt", Bound: 0, Wrap: report.Bubble(t), Body: func(r *explore.Run) { pubPTBody(r, rep, "publish/pt", thorough) }},
 		{Name: "claim", Bound: 0, Wrap: report.Bubble(t), Body: func(r *explore.Run) { claimBody(r, rep, "claim", masks, nFilters) }},
 		{Name: "fault", Bound: 1, Wrap: report.Bubble(t), Body: func(r *explore.Run) { faultBody(r, rep, "fault", bases) }},
+		{Name: "publish/observed-composed", Bound: 0, Wrap: report.Bubble(t), Body: func(r *explore.Run) { observedBody(r, rep, "publish/observed-composed") }},
 	}
 	rep.SelfCheck(t, scs[0], nil)
 	rep.SelfCheck(t, scs[2], nil)
